@@ -581,6 +581,46 @@ static void make_file(vrng *r, int kind, uint32_t dict, unsigned nblocks, vbuf *
 	gen_data(r, pl, 2000 + vrng_below(r, 30000), -1, 4096);
 	lzma_stream s = LZMA_STREAM_INIT;
 	uint8_t ob[65536];
+	if (kind == 3) {
+		// many tiny Blocks in 2-5 Streams with Stream Padding: the Index memory dominates (file-info decoder)
+		unsigned ns = 2 + vrng_below(r, 4);
+		vbuf_clear(pl);
+		for (unsigned st = 0; st < ns; ++st) {
+			lzma_stream e = LZMA_STREAM_INIT;
+			lzma_filter f1[2] = { { LZMA_FILTER_LZMA2, &o }, { LZMA_VLI_UNKNOWN, NULL } };
+			if (lzma_stream_encoder(&e, f1, LZMA_CHECK_NONE) != LZMA_OK) return;
+			unsigned nb = 1500 + vrng_below(r, 3000);
+			uint8_t one[4];
+			for (unsigned b = 0; b < nb; ++b) {
+				vrng_fill(r, one, sizeof(one)); vbuf_append(pl, one, sizeof(one));
+				e.next_in = one; e.avail_in = sizeof(one); lzma_ret ret;
+				do { e.next_out = ob; e.avail_out = sizeof(ob); ret = lzma_code(&e, b + 1 == nb ? LZMA_FINISH : LZMA_FULL_FLUSH); vbuf_append(file, ob, sizeof(ob) - e.avail_out); } while (ret == LZMA_OK);
+			}
+			lzma_end(&e);
+			unsigned pad = 4 * vrng_below(r, 4); for (unsigned i = 0; i < pad; ++i) vbuf_putc(file, 0);
+		}
+		return;
+	}
+	if (kind == 4) {
+		// 1-3 Streams, each from the threaded encoder (size fields: threaded decoding) or the single-threaded
+		// one (no size fields: direct mode), so that the threaded decoder switches modes inside one file
+		unsigned ns = 1 + vrng_below(r, 3);
+		vbuf_clear(pl);
+		for (unsigned st = 0; st < ns; ++st) {
+			vbuf part = {0}; gen_data(r, &part, 20000 + vrng_below(r, 200000), -1, 4096);
+			lzma_stream e = LZMA_STREAM_INIT; lzma_ret ret;
+			lzma_filter f1[2] = { { LZMA_FILTER_LZMA2, &o }, { LZMA_VLI_UNKNOWN, NULL } };
+			bool mtenc = (st == 0) ? vrng_chance(r, 3, 4) : vrng_chance(r, 1, 2);
+			if (mtenc) { lzma_mt m = { .threads = 2, .block_size = 16384u << vrng_below(r, 3), .filters = f1, .check = LZMA_CHECK_CRC32 }; ret = lzma_stream_encoder_mt(&e, &m); }
+			else ret = lzma_stream_encoder(&e, f1, LZMA_CHECK_CRC32);
+			if (ret != LZMA_OK) { vbuf_free(&part); return; }
+			e.next_in = part.p; e.avail_in = part.n;
+			do { e.next_out = ob; e.avail_out = sizeof(ob); ret = lzma_code(&e, LZMA_FINISH); vbuf_append(file, ob, sizeof(ob) - e.avail_out); } while (ret == LZMA_OK);
+			lzma_end(&e);
+			vbuf_append(pl, part.p, part.n); vbuf_free(&part);
+		}
+		return;
+	}
 	if (kind == 0) {
 		lzma_filter f[5]; unsigned n = 0;
 		static lzma_options_delta od = { .type = LZMA_DELTA_TYPE_BYTE, .dist = 2 };
@@ -652,11 +692,15 @@ static void c09_case(uint64_t idx)
 		if (A.thorough && vrng_chance(&r, 1, 30)) dict = vrng_chance(&r, 1, 2) ? (256u << 20) : (1536u << 20);
 		int kind = vrng_below(&r, 10) < 6 ? 0 : (vrng_chance(&r, 1, 2) ? 1 : 2);
 		unsigned nblocks = kind == 0 ? 1 + vrng_below(&r, vrng_chance(&r, 1, 4) ? 30 : 3) : 1;
-		vbuf file = {0}, pl = {0};
+		vbuf file = {0}, pl = {0}; bool mixed = false;
 		make_file(&r, kind, dict, nblocks, &file, &pl);
 		static const int dk_xz[] = { D_STREAM, D_STREAM_MT, D_AUTO, D_FILE_INFO };
 		int dk = kind == 0 ? dk_xz[vrng_below(&r, 4)] : (kind == 1 ? (vrng_chance(&r, 1, 2) ? D_ALONE : D_AUTO) : (vrng_chance(&r, 1, 2) ? D_LZIP : D_AUTO));
-		dec_spec spec; dec_spec_for(&spec, dk, NULL); spec.file_size = file.n;
+		// special file shapes for the two decoders whose accounting spans several Streams / modes
+		if (kind == 0 && dk == D_FILE_INFO && vrng_chance(&r, 2, 3)) { make_file(&r, 3, 4096, 0, &file, &pl); hx_count("file_info_many_block_files", 1); }
+		if (kind == 0 && dk == D_STREAM_MT && vrng_chance(&r, 2, 3)) { make_file(&r, 4, dict, 0, &file, &pl); mixed = true; hx_count("mt_mixed_mode_files", 1); }
+dec_spec spec; dec_spec_for(&spec, dk, NULL); spec.file_size = file.n;
+		if (mixed || kind != 0 || dk == D_FILE_INFO) spec.flags |= (dk == D_STREAM || dk == D_STREAM_MT || dk == D_AUTO || dk == D_LZIP) ? LZMA_CONCATENATED : 0;
 		spec.threads = 1 + vrng_below(&r, 4);
 		// unlimited reference run
 		alloc_mon m0; alloc_mon_init(&m0);
